@@ -279,6 +279,7 @@ func newHLLCache(size int, wsize int, db *RockDB) (*hllCache, error) {
 func (c *hllCache) Flush() {
 	start := time.Now()
 	c.dirtyWriteCache.Purge()
+	verifCrashPoint("ck.cacheflush.after")
 	cost := time.Since(start)
 	if cost > time.Millisecond*100 {
 		dbLog.Infof("flush hll cache cost: %v", cost)
